@@ -116,6 +116,32 @@ pub fn stable_event(m: &Message, sh: bool) -> J {
         Err(_) => json!({"op": "stable", "sh": sh, "m": proj::message(m), "b2": [], "res2": {"v": "panic"}, "b3": []}),
     }
 }
+/// what C04 looks at: class, consumed bytes, reported payload length
+fn frame_res(res: &J) -> J {
+    let v = res["v"].as_str().unwrap().to_string();
+    let consumed = res.get("consumed").and_then(|c| c.as_u64()).unwrap_or(0);
+    let n = if v == "filtered" { res["n"].as_u64().unwrap_or(0) } else if v == "msg" { res["m"]["h"]["plen"].as_u64().unwrap_or(0) } else { 0 };
+    json!({"v": v, "consumed": consumed, "n": n})
+}
+pub fn frame_event(buf: &[u8], cfg: Option<&DltFilterConfig>, sh: bool, api: &str) -> J {
+    let processed: Option<ProcessedDltFilterConfig> = cfg.map(|c| c.into());
+    let res = if api == "parse" { parse_res(buf, processed.as_ref(), sh, false) } else { consume_res(buf) };
+    json!({"op": "frame", "api": api, "buf": proj::bytes(buf), "sh": sh, "flt": proj::opt(&cfg, |c| proj::filter_config(c)), "res": frame_res(&res)})
+}
+/// C03: the same calls, logged with their outcome class only
+fn nopanic(mut e: J) -> J {
+    let api = e["op"].clone();
+    let v = e["res"]["v"].clone();
+    e["api"] = api;
+    e["op"] = json!("nopanic");
+    e["res"] = json!({"v": v});
+    e
+}
+pub fn filter_event(buf: &[u8], cfg: &DltFilterConfig, sh: bool, borrowed: bool) -> J {
+    let processed: ProcessedDltFilterConfig = if borrowed { cfg.into() } else { cfg.clone().into() };
+    json!({"op": "filter", "buf": proj::bytes(buf), "sh": sh, "flt": [proj::filter_config(cfg)],
+           "res": parse_res(buf, Some(&processed), sh, false), "res0": parse_res(buf, None, sh, false)})
+}
 fn item_of(buf: &[u8], sh: bool) -> Option<Message> {
     match catch_unwind(AssertUnwindSafe(|| dlt_message(buf, None, sh))) {
         Ok(Ok((_, ParsedMessage::Item(m)))) => Some(m),
@@ -208,22 +234,30 @@ pub fn record(mode: &str, seed: u64, n: usize, out: &mut Out) {
                 let inputs = hostile_inputs(&mut r, big);
                 for (x, sh) in inputs {
                     let cfg = if r.coin() { Some(random_filter(&mut r, None)) } else { None };
-                    out.calls += 5;
-                    out.emit(parse_event(&x, cfg.as_ref(), sh), x.len() >= 4);
+                    out.calls += 2;
+                    out.emit(nopanic(parse_event(&x, cfg.as_ref(), sh)), x.len() >= 4);
                     if let Some(m) = item_of(&x, sh) {
                         out.calls += 4;
-                        out.emit(reser_event(&m, true), true);
+                        let mut e = reser_event(&m, true);
+                        e["op"] = json!("reser3");
+                        out.emit(e, true);
                     }
-                    out.emit(consume_event(&x), x.len() >= 4);
-                    out.emit(skip_event(&x), !x.is_empty());
-                    out.emit(forward_event(&x), !x.is_empty());
+                    out.emit(nopanic(consume_event(&x)), x.len() >= 4);
+                    if x.len() > 5000 {
+                        // large inputs: the remaining entry points only occasionally (trace size)
+                        if r.one_in(4) { out.calls += 1; out.emit(nopanic(zstr_event(&x, 65535)), true); }
+                        continue;
+                    }
+                    out.calls += 4;
+                    out.emit(nopanic(skip_event(&x)), !x.is_empty());
+                    out.emit(nopanic(forward_event(&x)), !x.is_empty());
                     let size = match r.below(4) { 0 => r.below(8) as usize, 1 => x.len(), 2 => x.len() + 1, _ => r.below(70000) as usize };
-                    out.emit(zstr_event(&x, size), !x.is_empty());
+                    out.emit(nopanic(zstr_event(&x, size)), !x.is_empty());
                     // non-verbose construction on the same bytes
                     let nt = r.below(6) as usize;
                     let types: Vec<TypeInfo> = (0..nt).map(|_| TypeInfo { kind: gen::kind(&mut r), coding: gen::coding(&mut r), has_variable_info: r.coin(), has_trace_info: r.coin() }).collect();
                     let cut = r.below(x.len() as u64 + 1) as usize;
-                    out.emit(construct_event(r.coin(), &types, &x[..cut.min(64)]), nt > 0);
+                    out.emit(nopanic(construct_event(r.coin(), &types, &x[..cut.min(64)])), nt > 0);
                 }
             }
         }
@@ -244,8 +278,7 @@ pub fn record(mode: &str, seed: u64, n: usize, out: &mut Out) {
                 for (x, sh) in cands {
                     out.calls += 1;
                     if let Some(pm) = item_of(&x, sh) {
-                        out.calls += 4;
-                        out.emit(parse_event(&x, None, sh), true);
+                        out.calls += 3;
                         out.emit(stable_event(&pm, sh), true);
                     }
                 }
@@ -263,7 +296,7 @@ pub fn record(mode: &str, seed: u64, n: usize, out: &mut Out) {
                 out.emit(json!({"op": "prefixes", "full": proj::bytes(&b), "sh": sh, "cuts": cuts, "ccuts": ccuts}), true);
             }
         }
-        // C06: storage-header search and junk in front of messages
+        // C06: storage-header search, junk in front of a message, junk between the messages of a stream
         "junk" => {
             for _ in 0..n {
                 let junk = junk_bytes(&mut r);
@@ -271,14 +304,43 @@ pub fn record(mode: &str, seed: u64, n: usize, out: &mut Out) {
                 out.emit(forward_event(&junk), !junk.is_empty());
                 let m = gen::message(&mut r, &MsgOpts { storage: Some(true), big: 16, max_args: 2 });
                 let b = m.as_bytes();
-                let mut x = junk.clone();
-                x.extend(&b);
                 let k = r.below(6) as usize;
-                x.extend(r.bytes(k));
+                let sfx = r.bytes(k);
+                let mut with = junk.clone();
+                with.extend(&b);
+                with.extend(&sfx);
+                let mut without = b.clone();
+                without.extend(&sfx);
                 out.calls += 3;
-                out.emit(forward_event(&x), true);
-                out.emit(parse_event(&x, None, true), true);
-                out.emit(parse_event(&b, None, true), true);
+                out.emit(forward_event(&with), true);
+                out.emit(json!({"op": "junkparse", "junk": proj::bytes(&junk), "msg": proj::bytes(&b), "sfx": proj::bytes(&sfx),
+                                "a": parse_res(&with, None, true, false), "b": parse_res(&without, None, true, false)}), true);
+                // a stream junk msg junk msg ... tail
+                let np = 1 + r.below(3) as usize;
+                let mut parts = vec![];
+                let mut stream = vec![];
+                for _ in 0..np {
+                    let j = junk_bytes(&mut r);
+                    let mb = gen::message(&mut r, &MsgOpts { storage: Some(true), big: 16, max_args: 2 }).as_bytes();
+                    stream.extend(&j);
+                    stream.extend(&mb);
+                    out.calls += 1;
+                    parts.push(json!({"junk": proj::bytes(&j), "msg": proj::bytes(&mb), "alone": parse_res(&mb, None, true, false)}));
+                }
+                let tail = junk_bytes(&mut r);
+                stream.extend(&tail);
+                let mut pos = 0usize;
+                let mut steps = vec![];
+                for _ in 0..8 {
+                    out.calls += 1;
+                    let res = parse_res(&stream[pos..], None, true, false);
+                    let ok = res["v"] == "msg" || res["v"] == "filtered";
+                    let consumed = res.get("consumed").and_then(|c| c.as_u64()).unwrap_or(0) as usize;
+                    steps.push(json!({"pos": pos, "res": res}));
+                    if !ok || consumed == 0 { break; }
+                    pos += consumed;
+                }
+                out.emit(json!({"op": "recover", "parts": parts, "tail": proj::bytes(&tail), "steps": steps}), true);
             }
         }
         // C04 / C06: sessions (repeat until error) over streams with junk and malformed payloads
@@ -304,31 +366,35 @@ pub fn record(mode: &str, seed: u64, n: usize, out: &mut Out) {
                     out.emit(e, true);
                 }
                 out.calls += calls;
+                // single calls on mutated messages: whatever succeeds must consume the declared frame
+                let m = gen::message(&mut r, &MsgOpts { storage: None, big: 16, max_args: 2 });
+                let shm = m.storage_header.is_some();
+                let b = m.as_bytes();
+                for _ in 0..3 {
+                    let mut x = if r.coin() { corrupt_payload(&mut r, &b, shm) } else { gen::mutate(&mut r, &b, shm) };
+                    let k = r.below(8) as usize;
+                    x.extend(r.bytes(k));
+                    let cfg = if r.coin() { Some(random_filter(&mut r, Some(&m))) } else { None };
+                    out.calls += 2;
+                    out.emit(frame_event(&x, cfg.as_ref(), shm, "parse"), x.len() >= 4);
+                    out.emit(frame_event(&x, None, true, "consume"), x.len() >= 20);
+                }
             }
         }
-        // C09: filter decisions
+        // C09: filtered parse against unfiltered parse, through both conversions of the configuration
         "filter" => {
-            for _ in 0..n {
+            for i in 0..n {
                 let m = gen::message(&mut r, &MsgOpts { storage: None, big: 12, max_args: 2 });
                 let sh = m.storage_header.is_some();
                 let mut b = m.as_bytes();
+                if i % 9 == 8 { b = corrupt_payload(&mut r, &b, sh); }
                 let k = r.below(4) as usize;
                 b.extend(r.bytes(k));
-                for _ in 0..3 {
+                for j in 0..3 {
                     let cfg = random_filter(&mut r, Some(&m));
                     out.calls += 2;
-                    out.emit(parse_event(&b, Some(&cfg), sh), true);
-                    // both conversions must agree (owned and borrowed)
-                    let p1: ProcessedDltFilterConfig = (&cfg).into();
-                    let p2: ProcessedDltFilterConfig = cfg.clone().into();
-                    let a = parse_res(&b, Some(&p1), sh, false);
-                    let c = parse_res(&b, Some(&p2), sh, false);
-                    if a != c {
-                        out.emit(json!({"op": "conversion-disagreement", "buf": proj::bytes(&b), "flt": [proj::filter_config(&cfg)], "a": a, "b": c}), true);
-                    }
+                    out.emit(filter_event(&b, &cfg, sh, j % 2 == 0), true);
                 }
-                out.calls += 1;
-                out.emit(parse_event(&b, None, sh), true);
             }
         }
         // C13: non-verbose argument construction
@@ -398,8 +464,12 @@ pub fn record(mode: &str, seed: u64, n: usize, out: &mut Out) {
                     s.extend((0..4).map(|_| *r.pick(&alphabet)));
                     s.extend(&m);
                     out.calls += 2;
-                    out.emit(parse_event(&m, None, false), true);
-                    out.emit(parse_event(&s, None, true), true);
+                    let mut e1 = parse_event(&m, None, false);
+                    e1["op"] = json!("ids");
+                    out.emit(e1, true);
+                    let mut e2 = parse_event(&s, None, true);
+                    e2["op"] = json!("ids");
+                    out.emit(e2, true);
                 }
             }
         }
@@ -443,11 +513,9 @@ fn session_event(stream: &[u8], sh: bool, cfg: Option<&DltFilterConfig>, api: &s
         let buf = &stream[pos..];
         *calls += 1;
         let res = if api == "parse" { parse_res(buf, processed.as_ref(), sh, false) } else { consume_res(buf) };
-        let v = res["v"].as_str().unwrap().to_string();
-        let consumed = res.get("consumed").and_then(|c| c.as_u64()).unwrap_or(0) as usize;
-        let mut slim = json!({"v": v, "consumed": consumed});
-        if v == "filtered" { slim["n"] = res["n"].clone(); }
-        if v == "msg" { slim["plen"] = res["m"]["h"]["plen"].clone(); }
+        let slim = frame_res(&res);
+        let v = slim["v"].as_str().unwrap().to_string();
+        let consumed = slim["consumed"].as_u64().unwrap() as usize;
         steps.push(json!({"pos": pos, "res": slim}));
         if v == "msg" || v == "filtered" || v == "skipped" {
             if consumed == 0 { break; }
@@ -642,6 +710,39 @@ pub fn rerun(ev: &J) -> J {
             let cuts: Vec<J> = (0..b.len()).map(|k| parse_res(&b[..k], None, sh, false)).collect();
             let ccuts: Vec<J> = if sh { (0..b.len()).map(|k| consume_res(&b[..k])).collect() } else { vec![] };
             json!({"op": "prefixes", "full": ev["full"].clone(), "sh": sh, "cuts": cuts, "ccuts": ccuts})
+        }
+        "nopanic" => { let mut e2 = ev.clone(); e2["op"] = ev["api"].clone(); nopanic(rerun(&e2)) }
+        "reser3" => { let mut e = reser_event(&unproj::message(&ev["m"]), true); e["op"] = json!("reser3"); e }
+        "frame" => frame_event(&buf(), cfg.as_ref(), sh, ev["api"].as_str().unwrap()),
+        "filter" => filter_event(&buf(), cfg.as_ref().unwrap(), sh, true),
+        "ids" => { let mut e = parse_event(&buf(), None, sh); e["op"] = json!("ids"); e }
+        "junkparse" => {
+            let (junk, msg, sfx) = (unproj::bytes(&ev["junk"]), unproj::bytes(&ev["msg"]), unproj::bytes(&ev["sfx"]));
+            let mut with = junk.clone(); with.extend(&msg); with.extend(&sfx);
+            let mut without = msg.clone(); without.extend(&sfx);
+            json!({"op": "junkparse", "junk": ev["junk"].clone(), "msg": ev["msg"].clone(), "sfx": ev["sfx"].clone(),
+                   "a": parse_res(&with, None, true, false), "b": parse_res(&without, None, true, false)})
+        }
+        "recover" => {
+            let mut stream = vec![];
+            let mut parts = vec![];
+            for p in ev["parts"].as_array().unwrap() {
+                let (j, mb) = (unproj::bytes(&p["junk"]), unproj::bytes(&p["msg"]));
+                stream.extend(&j); stream.extend(&mb);
+                parts.push(json!({"junk": p["junk"].clone(), "msg": p["msg"].clone(), "alone": parse_res(&mb, None, true, false)}));
+            }
+            stream.extend(unproj::bytes(&ev["tail"]));
+            let mut pos = 0usize;
+            let mut steps = vec![];
+            for _ in 0..8 {
+                let res = parse_res(&stream[pos..], None, true, false);
+                let ok = res["v"] == "msg" || res["v"] == "filtered";
+                let consumed = res.get("consumed").and_then(|c| c.as_u64()).unwrap_or(0) as usize;
+                steps.push(json!({"pos": pos, "res": res}));
+                if !ok || consumed == 0 { break; }
+                pos += consumed;
+            }
+            json!({"op": "recover", "parts": parts, "tail": ev["tail"].clone(), "steps": steps})
         }
         "session" => { let mut c = 0u64; session_event(&buf(), sh, cfg.as_ref(), ev["api"].as_str().unwrap(), &mut c) }
         _ => json!({"op": "unknown"}),
